@@ -1,0 +1,14 @@
+//go:build verif
+
+package bam
+
+import "github.com/biogo/hts/internal"
+
+// VerifBinFor re-exports internal.BinFor for the verification harness.
+func VerifBinFor(beg, end int) uint32 { return internal.BinFor(beg, end) }
+
+// VerifOverlappingBinsFor re-exports internal.OverlappingBinsFor for the
+// verification harness.
+func VerifOverlappingBinsFor(beg, end int) []uint32 {
+	return internal.OverlappingBinsFor(beg, end)
+}
